@@ -53,6 +53,8 @@ def backup : Script := ⟨T_BACKUP, [.hdr, .field .coord, .field .coord, .field 
   [.hdr, .field .coord, .field .coord, .field .out, .inner, .ftr]⟩
 def affine : Script := ⟨T_AFFINE, [.hdr, .field .matrix, .inner, .ftr], [.hdr, .field .matrix, .inner, .ftr]⟩
 def thin : Script := ⟨0, [.inner], [.inner]⟩
+/-- `field::dump` / `field(std::istream&)` in field.hpp: the global header, the whole stack, the global footer -/
+def field : Script := ⟨T_FIELD, [.hdr, .inner, .ftr], [.hdr, .inner, .ftr]⟩
 end Ref
 
 /-- layer (as `harness/cxx2io.py` names it) -> its script -/
@@ -60,6 +62,6 @@ def Ref.all : List (String × Script) :=
   [("io_constant", Ref.constant), ("io_identity", Ref.identity), ("io_strided", Ref.strided), ("io_morton", Ref.morton),
    ("io_hilbert", Ref.hilbert), ("io_clamp", Ref.clamp), ("io_backup", Ref.backup), ("io_affine", Ref.affine),
    ("io_linear", Ref.thin), ("io_nearest_neighbour", Ref.thin), ("io_shuffle", Ref.thin), ("io_covariant_cast", Ref.thin),
-   ("io_dereference", Ref.thin)]
+   ("io_dereference", Ref.thin), ("io_field", Ref.field)]
 
 end Covfie.IO
